@@ -191,6 +191,7 @@ impl Stop {
     }
 }
 
+pub fn classify_public() {}
 fn classify(payload: Box<dyn Any + Send>) -> Stop {
     if let Some(e) = payload.downcast_ref::<VerifExit>() {
         return Stop::Exit(e.0);
